@@ -23,7 +23,8 @@ Inductive case :=
 | CParse (head : list N) (len : Z) (o : outcome (option (D * option D)) unit)
 | CEffects (p : D) (t : option D)
 | CBytes (ver : Z) (v : wval) (b : list N)
-| CMut (b : list N) (impl_ok : bool).
+| CMut (b : list N) (impl_ok : bool)
+| CResolved (role : N) (rb ra : D).
 
 (** ** Shape *)
 Definition shape_entry_eqb (x y : string * string * list string) : bool :=
@@ -235,6 +236,15 @@ Definition prop_mut (b : list N) (impl_ok : bool) : bool :=
   implb impl_ok (Nat.leb 8 (List.length b) && bytes_eqb (firstn 4 b) MAGIC &&
                  (let v := of_le32 (firstn 4 (skipn 4 b)) in N.eqb v 1 || N.eqb v 2)).
 
+(** ** A role step seen after [Pczt::resolve_fields]: the effecting fields INCLUDING the resolvable
+    representations ([cv_net], [cmx], [enc_ciphertext]) are unchanged *)
+Definition emask5f : mask := Eval vm_compute in mask_of (fun p => mem_path p (eff_paths false ++ eff_resolvable)) [] pczt_schema.
+Definition emask6f : mask := Eval vm_compute in mask_of (fun p => mem_path p (eff_paths true ++ eff_resolvable)) [] pczt_schema.
+Definition effects_full (p : D) : D := project (if is_v6 p then emask6f else emask5f) p.
+Definition prop_resolved (rb ra : D) : bool := D_eqb (effects_full rb) (effects_full ra).
+Definition run_resolved (rb ra : D) : bool :=
+  forallb (fun p => negb (is_shape p)) (diff_paths pczt_schema [] rb ra).
+
 Definition run_case (c : case) : bool :=
   match c with
   | CShape t => shape_ok t
@@ -246,6 +256,7 @@ Definition run_case (c : case) : bool :=
   | CEffects p t => run_effects p t
   | CBytes ver v b => run_bytes ver v b
   | CMut b ok => run_mut b ok
+  | CResolved _ rb ra => run_resolved rb ra
   end.
 
 Definition prop_case (c : case) : bool :=
@@ -259,6 +270,7 @@ Definition prop_case (c : case) : bool :=
   | CEffects p t => prop_effects p t
   | CBytes ver _ b => prop_bytes ver b
   | CMut b ok => prop_mut b ok
+  | CResolved _ rb ra => prop_resolved rb ra
   end.
 
 (** Class 1 is forgiven only when the round trip fails in exactly the listed way: everything else
@@ -300,5 +312,6 @@ Definition tag_case (c : case) : N :=
   | CEffects p t => 230 + (match tx_of p with Some _ => 1 | None => 0 end) + (match t with Some _ => 2 | None => 0 end)
                     + (if is_v6 p then 4 else 0)
   | CBytes ver _ _ => 240 + Z.to_N ver
+  | CResolved role rb ra => 270 + role + (if D_eqb rb ra then 0 else 10)
   | CMut b ok => 250 + (if ok then 1 else 0) + (match parse_wire W_v1 W_v2 b with Ok _ => 2 | Err TooShort => 4 | Err NotPczt => 6 | Err (UnknownVersion _) => 8 | _ => 0 end)
   end%N.
